@@ -181,8 +181,10 @@ class CIMNamespaceProvider(InstanceWriteProvider):
         # Allows namespace to exist but fails if and instance of
         # CIMInstanceName exists with this name
 
+        namespace_added = False
         if new_namespace not in self.cimrepository.namespaces:
             self.add_namespace(new_namespace)
+            namespace_added = True
         else:
             # If instance exists of CIM_Namespace for this new_instance.name
             # generate exception. This accounts for possible differences
@@ -202,8 +204,15 @@ class CIMNamespaceProvider(InstanceWriteProvider):
 
         # Create the CIM instance for the new namespace in the CIM repository,
         # by delegating to the default provider method.
-        return super().CreateInstance(
-            namespace, new_instance)
+        try:
+            return super().CreateInstance(
+                namespace, new_instance)
+        except Exception:
+            # Do not leave the new namespace behind if its instance was
+            # rejected
+            if namespace_added:
+                self.remove_namespace(new_namespace)
+            raise
 
     def ModifyInstance(self, modified_instance, IncludeQualifiers=None):
         """
